@@ -18,9 +18,9 @@
    wtab: (sw w0 ... wn), wi = go-runewidth StringWidth of the first i bytes of the excerpt the implementation printed.
    A line wrapped as (spec <line>) is judged against Spec (Oracle.v) instead of against the model; then
    the verdict of a violation is (bad <family> ...) where <family> names the model-side explanation
-   (stream-offset, pipe-reset, cr-window) or "other". *)
+   (stream-offset, pipe-reset, cr-window, yaml-char-index) or "other". *)
 From Coq Require Import List ZArith NArith Bool String.
-From Verif Require Import common.Sexp c17.FastSexp c17.ErrPos c17.Spec c17.Oracle c17.Window.
+From Verif Require Import common.Sexp c17.FastSexp c17.ErrPos c17.Spec c17.Oracle c17.Window c17.Yaml.
 Import ListNotations.
 Open Scope Z_scope.
 
@@ -210,10 +210,13 @@ Definition run_yaml (spec : bool) (fname contents : list N) (index : Z) (stderr 
   if spec then
     let '(l, x, col) := rep in
     let line := match l with Some l => l | None => 1 end in
-    let okb := if (0 <=? index) && (index <? zlen contents) then pos_chk sw true contents (Z.to_nat index) x line col
-               else pos_eof_chk sw true contents x line col in
+    (* go-yaml's index counts characters: the offending byte is the first byte of character number index *)
+    let o := char_offset contents (Z.to_nat index) in
+    let chk := fun o => if (0 <=? index) && (Z.of_nat o <? zlen contents) then pos_chk sw true contents o x line col
+                        else pos_eof_chk sw true contents x line col in
     if negb (rep_faithful (codes "invalid yaml: ") fname fname rep stderr) then bad [A "unparsed-stderr"]
-    else if okb then A "ok" else bad [A "other"]
+    else if chk o then A "ok"
+    else bad [if negb (Nat.eqb o (Z.to_nat index)) && chk (Z.to_nat index) then A "yaml-char-index" else A "other"]
   else
     let h := gojq_prefix ++ yaml_error_header sw fname contents index in
     if prefixb h stderr then A "ok" else bad [hexa h].
